@@ -230,6 +230,8 @@ func (s *subscriberImpl[T]) ErrorWithContext(ctx context.Context, err error) {
 		defer s.mu.Unlock()
 
 		if atomic.CompareAndSwapInt32(&s.status, 0, 1) {
+			verifPoint("subscriber.terminal.marked")
+
 			if s.destination != nil {
 				s.destination.ErrorWithContext(ctx, err)
 			}
@@ -256,6 +258,8 @@ func (s *subscriberImpl[T]) CompleteWithContext(ctx context.Context) {
 		defer s.mu.Unlock()
 
 		if atomic.CompareAndSwapInt32(&s.status, 0, 2) {
+			verifPoint("subscriber.terminal.marked")
+
 			if s.destination != nil {
 				s.destination.CompleteWithContext(ctx)
 			}
